@@ -117,7 +117,7 @@ Proof. exact copy_no_orphans. Qed.
 Print Assumptions C13_copy_no_orphans.
 
 (* ------------------------------------------------------------------ Grid2D: index part of copy_from_extent (inverse = false) *)
-(* PARTIAL (index arithmetic only; needs contiguity): the sub-grid starts at the first selected column/row and, when the
+(* PARTIAL (pinned index computation; needs contiguity): the sub-grid starts at the first selected column/row and, when the
    selected columns and rows are contiguous (always the case for an axis-aligned grid and a box), its counts are
    last - first + 1: the smallest rectangle covering the selected cells *)
 Theorem C13_subgrid_minimal : forall nu sel g lastu lastv,
@@ -167,6 +167,74 @@ Theorem C13_subgrid_covers : forall rows nu j row i,
 Proof. exact selected_cell_covered. Qed.
 Print Assumptions C13_subgrid_covers.
 
+(* ------------------------------------------------------------------ unrotated, undipped Grid2D: selection matrix and copied values
+   (exact integer arithmetic in half units; for rotated / dipped grids the matrix stays an input of grid_select) *)
+
+(* the selection matrix computed from the cell-centre formula: nv rows of nu entries, entry (j, i) = the closed-box test of
+   origin + ((i + 1/2) du, (j + 1/2) dv, 0) *)
+Theorem C13_grid_selection_matrix : forall e2 ox oy oz du dv nu nv i j, i < nu -> j < nv ->
+  nth_error (grid_sel e2 (grid_centres2 ox oy oz du dv nu nv)) j <> None /\
+  forall row, nth_error (grid_sel e2 (grid_centres2 ox oy oz du dv nu nv)) j = Some row ->
+    length row = nu /\ nth_error row i = Some (in_box (coords (grid_centre2 ox oy oz du dv i j)) e2).
+Proof. exact grid_sel_nth. Qed.
+Print Assumptions C13_grid_selection_matrix.
+
+(* the values of the copied sub-grid, row-major: cell (a, b) of the copy sits on source cell (u0 + a, v0 + b) and carries the
+   source value when that centre is selected, the no-data value otherwise (repaired index computation = the checked tree;
+   any selection matrix, so also the rotated case once the matrix is given) *)
+Theorem C13_grid_copy_values : forall nu sel g (vrows : list (list (option Z))),
+  grid_select true nu sel = Some g ->
+  length vrows = length sel -> Forall (fun r => length r = nu) vrows ->
+  grid_copy_values sel g (concat vrows) =
+  concat (map (fun b => map (fun a => if nth (sg_u0 g + a) (nth (sg_v0 g + b) sel []) false
+                                      then nth (sg_u0 g + a) (nth (sg_v0 g + b) vrows []) None
+                                      else None)
+                            (seq 0 (sg_nu g))) (seq 0 (sg_nv g))).
+Proof. exact grid_copy_values_spec. Qed.
+Print Assumptions C13_grid_copy_values.
+
+(* ------------------------------------------------------------------ every object selected through its locations
+   GridObject.mask_by_extent (block models, octrees, 2-D grids: centroids), Drillhole.mask_by_extent (the collar) and
+   Points.mask_by_extent (vertices) are the same function of a location list: [located_mask].  Whatever the list (for
+   block models and octrees: the centroids C17's theorems describe), the elements selected are exactly those whose
+   coordinates lie in the closed box (outside it when inverse), and nothing is returned exactly when the box misses the
+   bounding box of the locations *)
+Theorem C13_located_mask_exact : forall locs e inv m, located_mask locs e inv = Ok (Some m) ->
+  length m = length locs /\
+  forall i p, nth_error locs i = Some p -> nth_error m i = Some (xorb inv (in_box (coords p) e)).
+Proof. exact located_mask_exact. Qed.
+Print Assumptions C13_located_mask_exact.
+
+Theorem C13_located_none_iff : forall locs e inv,
+  located_mask locs e inv = Ok None <->
+  exists bb, obj_extent locs = Ok bb /\ valid_ext e = true /\ boxes_meet bb e = false.
+Proof. exact located_mask_none_iff. Qed.
+Print Assumptions C13_located_none_iff.
+
+(* instances: block model / octree centroids, and the drillhole collar (a hole is selected by its collar alone) *)
+Theorem C13_grid_object_mask_exact : forall centroids e inv m, grid_object_mask centroids e inv = Ok (Some m) ->
+  length m = length centroids /\
+  forall i p, nth_error centroids i = Some p -> nth_error m i = Some (xorb inv (in_box (coords p) e)).
+Proof. exact located_mask_exact. Qed.
+Print Assumptions C13_grid_object_mask_exact.
+
+Theorem C13_drillhole_mask_exact : forall collar e inv m, drillhole_mask collar e inv = Ok (Some m) ->
+  m = [xorb inv (in_box (coords collar) e)].
+Proof.
+  intros collar e inv m H. apply located_mask_some in H. subst m. reflexivity.
+Qed.
+Print Assumptions C13_drillhole_mask_exact.
+
+(* ------------------------------------------------------------------ groups: the copy by extent of a group holds exactly the copies
+   of the children whose own selection is not empty, in order, and there is no group copy when there is none *)
+Theorem C13_group_copy : forall (A : Type) (copies : list (option A)),
+  let kept := flat_map (fun c => match c with Some x => [x] | None => [] end) copies in
+  (group_copy_from_extent copies = None <-> forall c, In c copies -> c = None) /\
+  (forall l, group_copy_from_extent copies = Some l -> l = kept /\ l <> []) /\
+  (forall x, In x kept <-> In (Some x) copies).
+Proof. intros A. exact (@group_copy_spec A). Qed.
+Print Assumptions C13_group_copy.
+
 (* ------------------------------------------------------------------ non-vacuity *)
 (* a surface whose first triangle lies in the 2-D box [0,1]x[0,1] (points on the boundary count; z is ignored) and whose second
    does not; vertex 4 qualifies but is an orphan: the mask keeps 0,1,2 only; the inverse keeps nothing (no triangle wholly outside) *)
@@ -192,6 +260,22 @@ Qed.
 Example C13_grid_gap_repaired :
   exists g, grid_select true 3 gap_rows = Some g /\ sg_u0 g = 0 /\ sg_nu g = 3 /\ sg_nv g = 1.
 Proof. eexists. split; [vm_compute; reflexivity|]. simpl. auto. Qed.
+
+(* a 3 x 2 unrotated grid (origin (0,0,0), cells 2 x 1) and the box x in [2.5, 6], y in [0, 1] (half units: [5,12] x [0,2]):
+   columns 1-2 of row 0 are selected; the copy is 2 x 1 and keeps their values *)
+Example C13_grid_axis_aligned :
+  let sel := grid_sel [(5,12);(0,2)]%Z (grid_centres2 0 0 0 2 1 3 2) in
+  sel = [[false; true; true]; [false; false; false]] /\
+  exists g, grid_select true 3 sel = Some g /\ sg_u0 g = 1 /\ sg_v0 g = 0 /\ sg_nu g = 2 /\ sg_nv g = 1 /\
+            grid_copy_values sel g (concat [[Some 10; Some 11; Some 12]; [Some 13; Some 14; Some 15]]%Z) = [Some 11; Some 12]%Z.
+Proof. split; [vm_compute; reflexivity|]. eexists. split; [vm_compute; reflexivity|]. vm_compute. auto. Qed.
+
+Example C13_located_nonvacuous :
+  grid_object_mask [(1,1,1); (3,1,1); (1,3,1)]%Z [(0,2);(0,2)]%Z false = Ok (Some [true; false; false]) /\
+  drillhole_mask (5,5,0)%Z [(0,2);(0,2)]%Z false = Ok None /\
+  drillhole_mask (1,1,0)%Z [(0,2);(0,2)]%Z true = Ok (Some [false]) /\
+  group_copy_from_extent [None; Some 7; None; Some 9] = Some [7; 9] /\ group_copy_from_extent [@None nat; None] = None.
+Proof. repeat split; vm_compute; reflexivity. Qed.
 
 Example C13_grid_nonvacuous :
   let sel := [[false;false;false;false];[false;true;true;true];[false;true;true;true]] in
